@@ -125,6 +125,7 @@ func readEvents(path string) ([]Event, error) {
 			endsWithNewline = last[0] == '\n'
 		}
 	}
+	verifPoint("read.probed")
 
 	var events []Event
 	scanner := bufio.NewScanner(file)
@@ -157,6 +158,7 @@ func readEvents(path string) ([]Event, error) {
 		pending = line
 		pendingNo = currentNo
 	}
+	verifPoint("read.scanned")
 	if err := scanner.Err(); err != nil {
 		if errors.Is(err, bufio.ErrTooLong) {
 			return nil, fmt.Errorf("%s: event line too long (> %d bytes); file may be corrupted (e.g. missing newlines)", path, maxEventLineBytes)
@@ -201,9 +203,11 @@ func appendEvents(path string, events []Event) error {
 			return err
 		}
 		line := append(data, '\n')
+		verifPoint("append.before")
 		if err := writeAll(file, line); err != nil {
 			return err
 		}
+		verifPoint("append.after")
 	}
 	return nil
 }
@@ -232,12 +236,15 @@ func writeEventsFile(path string, events []Event) error {
 
 func replaceEventsAtomically(path string, events []Event) error {
 	tmpPath := path + ".tmp"
+	verifPoint("tmp.before")
 	if err := writeEventsFile(tmpPath, events); err != nil {
 		return err
 	}
+	verifPoint("rename.before")
 	if err := os.Rename(tmpPath, path); err != nil {
 		return err
 	}
+	verifPoint("rename.after")
 	return syncDir(filepath.Dir(path))
 }
 
